@@ -12,7 +12,7 @@ EXTENDS Common
 
 EnvDevs == {"envelopeError", "wrongEnvTypeEcho", "otherFormatEnvelope", "corruptedSignature", "wrongPayloadType",
             "targetNonObject", "targetNull", "otherDigest", "otherSize", "otherMediaType", "annDropped", "annDroppedEmpty", "annAltered",
-            "extraPayloadField", "extraDescField", "altSpellingTarget", "altSpellingDescKey"}
+            "extraPayloadField", "extraDescField", "altSpellingTarget", "altSpellingDescKey", "payloadTrailing"}
 RawDevs == {"describeOtherKeyID", "keySpecUndecodable", "keySpecOtherFamily", "keySpecOtherSize",
             "generateOtherKeyID", "generateEmptyKeyID", "unparsableCert", "emptyChain", "chainNotMatchingKey",
             "sigOverOtherBytes", "corruptedRawSignature"}
@@ -25,7 +25,7 @@ EnvChecks == <<
   [name |-> "parse-envelope",    stops |-> {"otherFormatEnvelope"}],
   [name |-> "self-verify",       stops |-> {"corruptedSignature"}],
   [name |-> "payload-type",      stops |-> {"wrongPayloadType"}],
-  [name |-> "payload-decode",    stops |-> {"targetNonObject"}],
+  [name |-> "payload-decode",    stops |-> {"targetNonObject", "payloadTrailing"}],
   [name |-> "descriptor-equal",  stops |-> {"targetNull", "otherDigest", "otherSize", "otherMediaType", "annDropped", "annDroppedEmpty", "annAltered"}],
   [name |-> "unknown-fields",    stops |-> {"extraPayloadField", "extraDescField", "altSpellingTarget", "altSpellingDescKey"}] >>
 RawChecks == <<
